@@ -250,12 +250,31 @@ func runC05(w *World, r *Report) {
 				r.Fail("C05.nothing-dropped-at-save", fmt.Sprintf("%s replaces checkpoint.%s", w.fname(fn), fw.field.Name()), fw.in.Pos(), "a table of the checkpoint is replaced on the way to the store (e.g. by a copy that keeps only the channels with a pending value): state that lives in a channel without a value — finished / skipped control predecessors, the skipped mark — is not written, and the channels read back are not the ones that existed at the interrupt")
 			}
 		}
+		// … and where it is built, Channels is the run's channel table itself (the parameter, or channelManager.channels),
+		// not something computed from it
+		for _, fn := range []*ssa.Function{hInt, hSub} {
+			for _, fw := range fieldWrites(fn) {
+				if fw.owner != cpT || fw.kind != "store" || fw.field.Name() != "Channels" {
+					continue
+				}
+				v := through(fw.val)
+				_, isParam := v.(*ssa.Parameter)
+				lf, _ := loadedField(v)
+				if isParam || (lf != nil && lf.Name() == "channels") {
+					r.OK("C05.nothing-dropped-at-save", w.fname(fn)+": checkpoint.Channels is the run's channel table", fw.in.Pos(), valText(v))
+					continue
+				}
+				nd++
+				r.Fail("C05.nothing-dropped-at-save", w.fname(fn)+": checkpoint.Channels is the run's channel table", fw.in.Pos(), "the checkpoint is built from "+valText(v)+" instead of the channel table: a selection ('only channels that hold a value') leaves out the DAG channels that hold nothing but the record of finished / skipped predecessors — a node that had recorded 'predecessor a is skipped' before the interrupt and still waits for another one waits for ever after the resume ('no tasks to execute')")
+			}
+		}
 		if nd == 0 {
 			r.OK("C05.nothing-dropped-at-save", "no delete on / replacement of a checkpoint table in package compose", cpT.Obj().Pos(), "entries are only added, tables only assigned where the checkpoint is built")
 		}
 	}
 
 	shareRule(w, r, "C05.conversion-tables-read-only", "converting a checkpoint writes nothing into the compiled graph's tables (the stream pairs by sender are shared by every receiver and every later run): per-edge overrides go into a copy", 0, "C09", "C09.read-only-at-runtime")
+	shareRule(w, r, "C05.map-keys-read-as-written", "the serialiser reads a map key back by the rule it wrote it with (a named string key is not written raw and read as JSON): a state with map[schema.RoleType]… survives the byte store", 1, "C12", "C12.key-codec-symmetric")
 
 	// ---- load-errors-kept
 	r.Rule("C05.load-errors-kept", "on the save / load path (package compose, internal/serialization) a success return after an error-yielding call is reached only where that error was tested nil: a checkpoint that cannot be read back is an error of the resume, never 'no checkpoint, start over' (shared with C13.no-dropped-error)", 1)
